@@ -168,6 +168,18 @@ func (r *c08Rules) checkResult(w *W, tname, mname string, res MRes, ctx string, 
 		}
 	case reflect.String:
 		s := v.String()
+		if tname == "JieQi" && mname == "GetName" {
+			// a term object is named with one of the 24 published names (never with an internal table key)
+			ok := false
+			for _, n := range calendar.JIE_QI {
+				if n == s {
+					ok = true
+				}
+			}
+			if !ok {
+				bad("not one of the 24 solar-term names")
+			}
+		}
 		if s == "" {
 			if c08OptionalEmpty[full] || (period0 && tname == "DaYun") {
 				return
@@ -328,6 +340,20 @@ func runC08(w *W) {
 				w.R.Nontrivial++
 			}
 			rules.checkResult(w, tname, res.Name, res, ctx, period0)
+			// an accessor of a lunar date that returns a year or month object (whatever its name) returns the object of
+			// that date's lunar year / month
+			if l, ok := obj.(*calendar.Lunar); ok && !res.Panicked && len(res.Vals) == 1 && res.Vals[0].Kind() == reflect.Ptr && !res.Vals[0].IsNil() {
+				switch o := res.Vals[0].Interface().(type) {
+				case *calendar.LunarYear:
+					if o.GetYear() != l.GetYear() {
+						w.Viol("C08:malformed:Lunar."+res.Name+":other-year", fmt.Sprintf("Lunar.%s on %s returns the year object of %d, the date's lunar year is %d", res.Name, ctx, o.GetYear(), l.GetYear()), ctx)
+					}
+				case *calendar.LunarMonth:
+					if o.GetYear() != l.GetYear() || o.GetMonth() != l.GetMonth() {
+						w.Viol("C08:malformed:Lunar."+res.Name+":other-month", fmt.Sprintf("Lunar.%s on %s returns the month object %d/%d, the date is in %d/%d", res.Name, ctx, o.GetYear(), o.GetMonth(), l.GetYear(), l.GetMonth()), ctx)
+					}
+				}
+			}
 		}
 		w.DistinctAdd("types", tname)
 		w.R.Traces++
@@ -387,7 +413,8 @@ func runC08(w *W) {
 			}); p {
 				// reported through the direct visit of GetFestivals
 			}
-			for _, jq := range []*calendar.JieQi{l.GetPrevJieQi(), l.GetNextJieQi(), l.GetPrevJie(), l.GetNextJie(), l.GetPrevQi(), l.GetNextQi()} {
+			for _, jq := range []*calendar.JieQi{l.GetPrevJieQi(), l.GetNextJieQi(), l.GetPrevJie(), l.GetNextJie(), l.GetPrevQi(), l.GetNextQi(),
+				l.GetPrevJieQiByWholeDay(true), l.GetNextJieQiByWholeDay(true), l.GetPrevJieByWholeDay(true), l.GetNextJieByWholeDay(true), l.GetPrevQiByWholeDay(true), l.GetNextQiByWholeDay(true)} {
 				if jq != nil {
 					visit(jq, ctx+" near term", false, false)
 				}
